@@ -46,6 +46,51 @@ def classify(case, msg):
     return "C06:logprobs"
 
 
+def pool_cases():
+    """The real kernel behind a multi-process pool (tasks, helper and data are pickled to the workers), data with an explicit
+    reference epoch before the first observation, several batches, shuffled order: every returned row's reported ln_likelihood is
+    the marginal likelihood of that row's own parameters, as a serial in-memory sampler computes it for the same data."""
+    import warnings
+
+    import astropy.units as u
+    import schwimmbad
+    import sampling as S
+    from astropy.time import Time
+    from thejoker.data import RVData
+    from thejoker.samples import JokerSamples
+    from thejoker.thejoker import TheJoker
+
+    out = []
+    r = np.random.default_rng(606)
+    t = 55000 + np.sort(np.round(r.uniform(0, 60, 9) * 64) / 64)
+    rv = np.round((6 * np.cos(2 * np.pi * t / 3.4375) + r.normal(0, 4, 9)) * 64) / 64
+    data = RVData(t, rv * u.km / u.s, np.full(9, 12.0) * u.km / u.s, t_ref=Time(float(t.min()) - 7.25, format="mjd", scale="tcb"))
+    lib = S.make_library(48, seed=6, with_lnprior=True, alt_units=True)
+    case = dict(family="pool")
+    with warnings.catch_warnings():
+        warnings.simplefilter("ignore")
+        try:
+            with schwimmbad.MultiPool(processes=2) as pool:
+                res = TheJoker(c02.real_prior(), rng=np.random.default_rng(11), pool=pool).rejection_sample(
+                    data, lib, return_logprobs=True, n_linear_samples=1, n_batches=4, randomize_prior_order=True)
+            if len(res) < 4:
+                return [(case, f"only {len(res)} rows returned: the scenario does not exercise several rows")]
+            serial = TheJoker(c02.real_prior(), rng=np.random.default_rng(0))
+            for i in range(min(len(res), 12)):
+                sub = JokerSamples()
+                for nm in ("P", "e", "omega", "M0", "s"):
+                    sub[nm] = res[nm][i: i + 1]
+                ll_own = float(np.asarray(serial.marginal_ln_likelihood(data, sub, in_memory=True))[0])
+                ll_rep = float(np.asarray(res["ln_likelihood"])[i])
+                if not abs(ll_own - ll_rep) <= 1e-9 * (1 + abs(ll_own)):
+                    out.append((case, f"2-process pool, explicit reference epoch, 4 batches: row {i} reports ln_likelihood {ll_rep!r} but its own nonlinear "
+                                f"parameters give {ll_own!r} for these data"))
+                    break
+        except Exception as e:
+            out.append((case, f"2-process pool: raised {type(e).__name__}: {str(e)[:200]}"))
+    return out
+
+
 def run(ctx):
     ctx.make_overlay(need_kernel=True)
     ctx.regen_all(needed=("py2v_reject.py", "py2v_entry.py"))  # Gen/RejectSites.v: the four rejection sites as the source has them now
@@ -79,11 +124,14 @@ def run(ctx):
             if errs:
                 ctx.fail("predicate", "C06:logprobs", errs[0], case=c)
                 break
+    for case, msg in pool_cases():
+        ctx.fail("predicate", "C06:pool", msg, case=case)
+    n_eval += 1
     ctx.coverage.update(evaluations=n_eval, distinct_nontrivial=nt)
     return ctx.finish(
         rule="as C02 with return_logprobs=True and return_all_logprobs=True (all option combinations x profiles x paths), plus the iterative "
         "sampler with return_logprobs=True; ln_prior of library row i is -3 - i/8 (injective), stub likelihoods known per row. "
-        "Non-trivial = at least one sample accepted and one rejected",
+        "One real-kernel call behind a 2-process pool (explicit reference epoch, 4 batches, shuffled order) whose reported ln_likelihood is recomputed per row by a serial sampler. Non-trivial = at least one sample accepted and one rejected",
         assumptions=["as C02", "column identity is decided on exact float values"],
         trusted_extra=["Coq-Interval through Base/RealEnc.v (acceptance decisions)", "translator tools/py2v_reject.py (the four rejection sites; fail-closed)"],
     )
@@ -93,7 +141,7 @@ def replay(ctx, path):
     payload = json.load(open(path))
     ctx.make_overlay(need_kernel=True)
     case = payload.get("case")
-    if case is None:
+    if case is None or case.get("family") == "pool":
         return run(ctx)
     ctx.regen_all()
     ctx.build_models(MODELS + ["Model/Iterative.vo", "Gen/ConstsGen.vo"])
